@@ -38,7 +38,8 @@ CONSTANTS
   Transfers,    \* BOOLEAN: enable pickle / dump+load / copy_expr_from / gen_fun actions (C11, C12, C13)
   KeepLoc, KeepExpr,   \* the pre-existing definition of the copy_keep transfer
   MaxDepth,
-  EmitIdx       \* BOOLEAN: attach derived index supports to every emitted label
+  EmitIdx,      \* BOOLEAN: attach derived index supports to every emitted label
+  Episodes      \* BOOLEAN: compute EpSafe (where a frozen episode is the identity) for the emitted source states (C17)
 
 VARIABLES mem, defs, reg, kprev, frozen, ghost, last, depth
 
@@ -313,6 +314,8 @@ SetExprFault(l, e) ==
 (*   copy_plain : fresh manager, copy_expr_from(old, "s")                                                    *)
 (*   copy_bind  : fresh manager whose container holds the data one level down, copy_expr_from(old, "s",     *)
 (*                bindings = {s: t['sub']}): every location is rebased, definitions are the same            *)
+(*   copy_bind_keep : copy_bind and copy_keep together: rebased locations, overwrite = FALSE, the receiving   *)
+(*                manager already defines the REBASED KeepLoc                                               *)
 (*   copy_keep  : as copy_plain with overwrite = FALSE into a manager that already defines KeepLoc by       *)
 (*                KeepExpr: that definition survives, the others are copied.  load() registers without       *)
 (*                running, so the dependants of KeepLoc are stale until it is assigned again (ghost).        *)
@@ -325,7 +328,7 @@ Transfer(kind) ==
             /\ Picklable /\ Unchanged /\ last' = a @@ [exc |-> "none"]
        [] kind \in {"dumpload", "copy_plain", "copy_bind"} ->
             /\ reg' = {} /\ UNCHANGED <<mem, defs, kprev, frozen, ghost>> /\ last' = a @@ [exc |-> "none"]
-       [] kind = "copy_keep" ->
+       [] kind \in {"copy_keep", "copy_bind_keep"} ->
             LET D1 == [defs EXCEPT ![KeepLoc] = KeepExpr] IN
             /\ Acyclic(D1, {})
             /\ defs' = D1
@@ -363,7 +366,7 @@ GenFun(args, vals) ==
      /\ last' = [a |-> "GenFun", args |-> args, vals |-> vals, exc |-> "none", trig |-> AsSeq(T), prec |-> AsSeq(Prec(defs, T)),
                  cyc |-> StructCyclic(defs, T)]
 
-Xfer == \/ \E kind \in {"pickle_copy", "pickle_orig", "dumpload", "copy_plain", "copy_bind", "copy_keep"} : Transfer(kind)
+Xfer == \/ \E kind \in {"pickle_copy", "pickle_orig", "dumpload", "copy_plain", "copy_bind", "copy_keep", "copy_bind_keep"} : Transfer(kind)
         \/ \E l1 \in Leaf : \E v1 \in ValsOf[l1] : GenFun(<<l1>>, <<v1>>)
         \/ \E l1, l2 \in Leaf : \E v1 \in ValsOf[l1] : l1 # l2 /\ GenFun(<<l1, l2>>, <<v1, CHOOSE v \in ValsOf[l2] : TRUE>>)
 
@@ -432,7 +435,7 @@ C02Prop == [][("trig" \in DOMAIN last' /\ "l" \in DOMAIN last') =>
 RECURSIVE Topo(_, _)
 Topo(D, T) == IF T = {} THEN <<>>          \* one allowed order (true data flow is acyclic: AcyclicInv); all agree (Update asserts confluence)
               ELSE LET t == CHOOSE x \in T : \A u \in T : u # x => ~Produces(D, u, x) IN <<t>> \o Topo(D, T \ {t})
-EpSafe == IF ~(Extras /\ EmitIdx) \/ TLCGet("config").mode # "bfs" \/ frozen \/ ghost # {} THEN {}
+EpSafe == IF ~Episodes \/ TLCGet("config").mode # "bfs" \/ frozen \/ ghost # {} THEN {}
           ELSE {l \in Leaf : /\ defs[l] = NoDef
                              /\ LET T == Triggered(defs, reg, l) IN
                                 /\ ~StructCyclic(defs, T)
